@@ -265,7 +265,7 @@ def obligations(tier, seed):
                 continue
             # quick tier: every third obligation, plus every obligation with more than one element / label / route
             # (multi-element shapes are where length arithmetic goes wrong) and every /0 shape
-            special = any(t in o['id'] for t in ('depth=2', '/list', 'two', 'second', 'plen=0', 'label=', '+', 'n=2', 'long-rule', 'then-'))
+            special = any(t in o['id'] for t in ('depth=2', '/list', 'two', 'second', 'plen=0', 'label=', '+', 'n=2', 'long-rule', 'then-', 'rule-octets', 'repeated-term'))
             if i % step != (seed % step) and not special:
                 continue
             out.append(ob('C08/' + o['id'], 'ob_wrap', {'module': 'vf.props.' + modname, 'fn': o['fn'], 'inner': o.get('params', {})},
